@@ -46,7 +46,7 @@ Definition to_ev (x : xev) : nat * ev :=
 Definition ocode (o : outcome) : Z := match o with OK => 0 | AcceptableErr => 1 | UnacceptableErr => 2 | Panics => 3 end.
 Definition code_of (o : obs) : Z :=
   match o with
-  | ONone => 0 | OAdmitted => 1
+  | ONone => 0 | OLetIn => 1
   | ORejected RUnavailable => 2 | ORejected RFallback => 3 | ORejected (RRan _) => 99
   | OAllowRejected => 5
   | ODone (RRan o) => 10 + ocode o | ODone _ => 99
